@@ -1,3 +1,821 @@
-//! C07 — not built yet.
-use crate::run::Run;
-pub fn run(_run: &Run) { eprintln!("C07: check not built yet"); std::process::exit(2); }
+//! C07 — page n is the n-th leaf of the page tree; media box, crop box and resources come from the page itself,
+//! else from the nearest ancestor that has one (crop box falling back to the media box).
+//!
+//! Workload: abstract page trees (`T`) -> document written by mkpdf -> real library under {uncached, cached} strict.
+//! Oracle: a top-down model on the abstract tree; the written document is additionally re-walked bottom-up by
+//! `refimpl::c07_walk` and has to agree with the model before the library sees it (else: inconclusive).
+use crate::doc::{root_kind, Cfg};
+use crate::mkpdf::{dict, flate_filter, ints, name, no_filter, rf, Obj, W};
+use crate::panicmon::{guard, PanicRec};
+use crate::par::par_for;
+use crate::refimpl::c07_walk as walk;
+use crate::rng::{fnv, Rng};
+use crate::run::{hex, Run};
+use crate::tape::Src;
+use crate::with_file;
+use pdf::error::PdfError;
+use pdf::object::{PageRc, Rectangle};
+use serde_json::{json, Value};
+use std::collections::{BTreeMap, BTreeSet, HashMap, HashSet};
+use std::sync::Mutex;
+
+const CFG2: [Cfg; 2] = [Cfg { cached: false, tolerant: false }, Cfg { cached: true, tolerant: false }];
+pub const MAX_DEPTH: usize = 12; // edges from the root to a node
+pub const MAX_FANOUT: usize = 6;
+pub const MAX_NODES: usize = 60;
+
+// ------------------------------------------------------------------------------------------------ abstract trees
+
+#[derive(Clone, Debug, PartialEq, Eq, Hash)]
+pub struct T { pub leaf: bool, pub kids: Vec<T>, pub m: bool, pub c: bool, pub r: bool }
+impl T {
+    pub fn leaf() -> T { T { leaf: true, kids: vec![], m: false, c: false, r: false } }
+    pub fn pages(kids: Vec<T>) -> T { T { leaf: false, kids, m: false, c: false, r: false } }
+    pub fn with(mut self, attrs: &str) -> T { self.m = attrs.contains('M'); self.c = attrs.contains('C'); self.r = attrs.contains('R'); self }
+    pub fn size(&self) -> usize { 1 + self.kids.iter().map(|k| k.size()).sum::<usize>() }
+    /// e.g. `P{MR}(L P(L{C} L) P())`
+    pub fn desc(&self) -> String {
+        let mut s = String::from(if self.leaf { "L" } else { "P" });
+        if self.m || self.c || self.r {
+            s.push('{');
+            if self.m { s.push('M'); } if self.c { s.push('C'); } if self.r { s.push('R'); }
+            s.push('}');
+        }
+        if !self.leaf {
+            s.push('(');
+            for (i, k) in self.kids.iter().enumerate() { if i > 0 { s.push(' '); } s.push_str(&k.desc()); }
+            s.push(')');
+        }
+        s
+    }
+}
+
+#[derive(Clone, Debug)]
+pub struct Flat { leaf: bool, parent: Option<usize>, kids: Vec<usize>, m: bool, c: bool, r: bool, depth: usize }
+
+/// preorder numbering; node id = position in the vector; 0 = root
+pub fn flatten(t: &T) -> Vec<Flat> {
+    fn go(t: &T, parent: Option<usize>, depth: usize, out: &mut Vec<Flat>) -> usize {
+        let id = out.len();
+        out.push(Flat { leaf: t.leaf, parent, kids: vec![], m: t.m, c: t.c, r: t.r, depth });
+        for k in &t.kids { let kid = go(k, Some(id), depth + 1, out); out[id].kids.push(kid); }
+        id
+    }
+    let mut out = Vec::new();
+    go(t, None, 0, &mut out);
+    out
+}
+
+/// what the property demands for one leaf: node ids of the providers
+#[derive(Clone, Debug, PartialEq)]
+pub struct Want { id: usize, media: usize, crop: Option<usize>, res: usize }
+
+/// Top-down model: depth-first leaf order, nearest provider carried downwards.
+/// Err = the tree is outside the domain (no MediaBox / Resources on some leaf's path, root is a leaf, ...).
+pub fn model(f: &[Flat]) -> Result<Vec<Want>, String> {
+    if f.is_empty() || f[0].leaf { return Err("root must be an intermediate node".into()); }
+    fn go(f: &[Flat], id: usize, m: Option<usize>, c: Option<usize>, r: Option<usize>, out: &mut Vec<Want>) -> Result<(), String> {
+        let n = &f[id];
+        let m = if n.m { Some(id) } else { m };
+        let c = if n.c { Some(id) } else { c };
+        let r = if n.r { Some(id) } else { r };
+        if n.leaf {
+            if !n.kids.is_empty() { return Err("leaf with kids".into()); }
+            out.push(Want { id, media: m.ok_or("leaf without MediaBox on its path")?, crop: c, res: r.ok_or("leaf without Resources on its path")? });
+        } else {
+            if n.kids.len() > 1000 { return Err("fan-out".into()); }
+            for &k in &n.kids { go(f, k, m, c, r, out)?; }
+        }
+        Ok(())
+    }
+    let mut out = Vec::new();
+    go(f, 0, None, None, None, &mut out)?;
+    Ok(out)
+}
+
+fn media_rect(p: usize) -> [i64; 4] { [0, 0, 1000 + p as i64, 2000 + p as i64] }
+fn crop_rect(p: usize) -> [i64; 4] { [10, 20, 3000 + p as i64, 4000 + p as i64] }
+fn res_name(p: usize) -> String { format!("Mk{}", p) }
+fn leaf_marker(id: usize) -> i64 { 7000 + id as i64 }
+
+// ------------------------------------------------------------------------------------------------ documents
+
+#[derive(Clone, Debug, PartialEq)]
+pub struct Layout { shuffle: Option<u64>, objstm: bool, res_indirect: bool, real_box: bool }
+impl Layout {
+    pub fn plain() -> Layout { Layout { shuffle: None, objstm: false, res_indirect: false, real_box: false } }
+    fn json(&self) -> Value { json!({"shuffle_seed": self.shuffle, "objstm_xrefstream": self.objstm, "resources_indirect": self.res_indirect, "real_box_numbers": self.real_box}) }
+}
+
+pub struct Built { bytes: Vec<u8>, objs: walk::Objs, catalog: u32, nr_of: Vec<u32> }
+
+pub fn build(f: &[Flat], lay: &Layout) -> Built {
+    let n = f.len();
+    let res_nodes: Vec<usize> = if lay.res_indirect { (0..n).filter(|&i| f[i].r).collect() } else { vec![] };
+    let total = 1 + n + res_nodes.len();
+    let mut nums: Vec<u32> = (1..=total as u32).collect();
+    let mut rng = Rng::new(lay.shuffle.unwrap_or(0) ^ 0xC07);
+    if lay.shuffle.is_some() { rng.shuffle(&mut nums); }
+    let catalog = nums[0];
+    let nr_of: Vec<u32> = nums[1..=n].to_vec();
+    let res_nr: HashMap<usize, u32> = res_nodes.iter().enumerate().map(|(k, &id)| (id, nums[1 + n + k])).collect();
+    let bx = |a: [i64; 4]| if lay.real_box { Obj::Arr(a.iter().map(|&x| Obj::Real(x as f64)).collect()) } else { ints(&a) };
+    let mut objs: walk::Objs = BTreeMap::new();
+    objs.insert(catalog, dict(vec![("Type", name("Catalog")), ("Pages", rf(nr_of[0]))]));
+    let leaves_below = {
+        let mut v = vec![0i64; n];
+        for id in (0..n).rev() { if f[id].leaf { v[id] = 1; } if let Some(p) = f[id].parent { v[p] += v[id]; } }
+        v
+    };
+    for id in 0..n {
+        let nd = &f[id];
+        let mut items: Vec<(&str, Obj)> = vec![("Type", name(if nd.leaf { "Page" } else { "Pages" }))];
+        if let Some(p) = nd.parent { items.push(("Parent", rf(nr_of[p]))); }
+        if nd.leaf {
+            items.push(("VerifLeaf", Obj::Int(leaf_marker(id))));
+        } else {
+            items.push(("Kids", Obj::Arr(nd.kids.iter().map(|&k| rf(nr_of[k])).collect())));
+            items.push(("Count", Obj::Int(leaves_below[id])));
+        }
+        if nd.m { items.push(("MediaBox", bx(media_rect(id)))); }
+        if nd.c { items.push(("CropBox", bx(crop_rect(id)))); }
+        if nd.r {
+            let rd = Obj::Dict(vec![(b"Properties".to_vec(), Obj::Dict(vec![(res_name(id).into_bytes(), Obj::Dict(vec![]))]))]);
+            match res_nr.get(&id) {
+                Some(&nr) => { objs.insert(nr, rd); items.push(("Resources", rf(nr))); }
+                None => items.push(("Resources", rd)),
+            }
+        }
+        objs.insert(nr_of[id], dict(items));
+    }
+    // file order independent of the numbering
+    let mut order: Vec<u32> = objs.keys().cloned().collect();
+    if lay.shuffle.is_some() { rng.shuffle(&mut order); }
+    let trailer = vec![(b"Root".to_vec(), rf(catalog))];
+    let mut w = W::new(b"", if lay.objstm { "1.5" } else { "1.7" });
+    w.free(0, 0, 65535);
+    if !lay.objstm {
+        for nr in &order { w.obj(*nr, 0, &objs[nr]); }
+        w.xref_table(trailer, total as u32 + 1, &[]);
+    } else {
+        let mut inside: BTreeSet<u32> = BTreeSet::new();
+        for nr in &order { if *nr != catalog && (lay.shuffle.is_none() || rng.chance(2, 3)) { inside.insert(*nr); } }
+        if inside.is_empty() { inside.insert(nr_of[0]); }
+        for nr in &order { if !inside.contains(nr) { w.obj(*nr, 0, &objs[nr]); } }
+        let members: Vec<(u32, Obj)> = order.iter().filter(|nr| inside.contains(nr)).map(|nr| (*nr, objs[nr].clone())).collect();
+        let flate = lay.shuffle.is_none() || rng.chance(1, 2);
+        if flate { w.objstm(total as u32 + 1, &members, b"\n", 0, &flate_filter); } else { w.objstm(total as u32 + 1, &members, b"\n", 0, &no_filter); }
+        w.xref_stream(total as u32 + 2, trailer, total as u32 + 3, &[], &flate_filter);
+    }
+    Built { bytes: w.buf, objs, catalog, nr_of }
+}
+
+// ------------------------------------------------------------------------------------------------ observations
+
+#[derive(Clone, Debug)]
+pub enum Got<T> { Val(T), Err { kind: String, text: String }, Panic(PanicRec) }
+#[derive(Clone, Debug)]
+pub struct PageObs { marker: Option<i64>, nr: u64, media: Got<[f32; 4]>, crop: Got<[f32; 4]>, res: Got<Vec<String>> }
+#[derive(Clone, Debug)]
+pub struct Observed { load: Got<()>, count: i64, get: Vec<Got<PageObs>>, iter: Vec<Got<PageObs>>, oob: Vec<Got<PageObs>> }
+
+fn lift<T>(r: Result<Result<T, PdfError>, PanicRec>) -> Got<T> {
+    match r {
+        Err(p) => Got::Panic(p),
+        Ok(Err(e)) => Got::Err { kind: root_kind(&e), text: e.to_string().chars().take(200).collect() },
+        Ok(Ok(v)) => Got::Val(v),
+    }
+}
+fn obs_page(g: Got<PageRc>) -> Got<PageObs> {
+    match g {
+        Got::Panic(p) => Got::Panic(p),
+        Got::Err { kind, text } => Got::Err { kind, text },
+        Got::Val(p) => {
+            let rc = |r: Rectangle| [r.left, r.bottom, r.right, r.top];
+            let marker = p.other.get("VerifLeaf").and_then(|x| x.as_integer().ok()).map(|i| i as i64);
+            let nr = p.get_ref().get_inner().id as u64;
+            Got::Val(PageObs {
+                marker, nr,
+                media: lift(guard(|| p.media_box().map(rc))),
+                crop: lift(guard(|| p.crop_box().map(rc))),
+                res: lift(guard(|| p.resources().map(|r| { let mut v: Vec<String> = r.properties.keys().map(|k| k.as_str().to_string()).collect(); v.sort(); v }))),
+            })
+        }
+    }
+}
+
+/// the real library, one configuration; n = number of leaves the model expects
+fn observe_real(bytes: &[u8], cfg: Cfg, n: usize) -> Observed {
+    let r = guard(|| with_file!(bytes.to_vec(), cfg, b"", |f| match f {
+        Err(e) => Observed { load: Got::Err { kind: root_kind(&e), text: e.to_string().chars().take(200).collect() }, count: -1, get: vec![], iter: vec![], oob: vec![] },
+        Ok(file) => {
+            let count = file.num_pages() as i64;
+            let get = (0..n).map(|i| obs_page(lift(guard(|| file.get_page(i as u32))))).collect();
+            let iter = match guard(|| file.pages().take(n + 3).collect::<Vec<_>>()) {
+                Err(p) => vec![Got::Panic(p)],
+                Ok(v) => v.into_iter().map(|r| obs_page(lift(Ok(r)))).collect(),
+            };
+            let oob = (0..3).map(|k| obs_page(lift(guard(|| file.get_page((n + k) as u32))))).collect();
+            Observed { load: Got::Val(()), count, get, iter, oob }
+        }
+    }));
+    match r {
+        Ok(o) => o,
+        Err(p) => Observed { load: Got::Panic(p), count: -1, get: vec![], iter: vec![], oob: vec![] },
+    }
+}
+
+/// the doctored stub library of refimpl::c07_walk (self-test only)
+fn observe_stub(objs: &walk::Objs, catalog: u32, bug: walk::Bug, n: usize) -> Observed {
+    let root = walk::stub_root(objs, catalog);
+    let count = walk::stub_count(objs, catalog, bug);
+    let f4 = |a: [f64; 4]| [a[0] as f32, a[1] as f32, a[2] as f32, a[3] as f32];
+    let page = |i: i64| -> Got<PageObs> {
+        match walk::stub_page(objs, root, i, bug) {
+            Err(k) => Got::Err { kind: k.clone(), text: k },
+            Ok(nr) => {
+                let l = walk::stub_leaf(objs, nr, bug);
+                fn miss<X>(what: &str) -> Got<X> { Got::Err { kind: "MissingEntry".to_string(), text: what.to_string() } }
+                Got::Val(PageObs { marker: l.marker, nr: nr as u64,
+                    media: l.media.map(|m| Got::Val(f4(m))).unwrap_or_else(|| miss("MediaBox")),
+                    crop: l.crop.map(|m| Got::Val(f4(m))).unwrap_or_else(|| miss("CropBox")),
+                    res: l.res.map(Got::Val).unwrap_or_else(|| miss("Resources")) })
+            }
+        }
+    };
+    Observed { load: Got::Val(()), count, get: (0..n as i64).map(&page).collect(), iter: (0..count.max(0)).map(&page).collect(),
+        oob: (0..3).map(|k| page(n as i64 + k)).collect() }
+}
+
+// ------------------------------------------------------------------------------------------------ oracle
+
+#[derive(Clone, Debug, PartialEq)]
+pub struct ExpLeaf { marker: i64, nr: u64, media: [f32; 4], crop: [f32; 4], res: Vec<String> }
+#[derive(Clone, Debug)]
+pub struct Fail { class: String, detail: String }
+
+fn f4(a: [i64; 4]) -> [f32; 4] { [a[0] as f32, a[1] as f32, a[2] as f32, a[3] as f32] }
+
+fn expectations(wants: &[Want], nr_of: &[u32]) -> Vec<ExpLeaf> {
+    wants.iter().map(|w| ExpLeaf {
+        marker: leaf_marker(w.id), nr: nr_of[w.id] as u64, media: f4(media_rect(w.media)),
+        crop: match w.crop { Some(c) => f4(crop_rect(c)), None => f4(media_rect(w.media)) }, res: vec![res_name(w.res)],
+    }).collect()
+}
+
+fn find_panic(o: &Observed) -> Option<&PanicRec> {
+    if let Got::Panic(p) = &o.load { return Some(p); }
+    for g in o.get.iter().chain(o.iter.iter()).chain(o.oob.iter()) {
+        match g {
+            Got::Panic(p) => return Some(p),
+            Got::Val(po) => {
+                if let Got::Panic(p) = &po.media { return Some(p); }
+                if let Got::Panic(p) = &po.crop { return Some(p); }
+                if let Got::Panic(p) = &po.res { return Some(p); }
+            }
+            _ => {}
+        }
+    }
+    None
+}
+
+/// Compare an observation with the model. One failure per observation, chosen by a fixed priority so that the
+/// outcome class of a given defect does not depend on which page happened to be looked at first.
+pub fn judge(exp: &[ExpLeaf], o: &Observed) -> Option<Fail> {
+    let fail = |c: &str, d: String| Some(Fail { class: c.to_string(), detail: d });
+    if let Some(p) = find_panic(o) { return fail(&p.signature(), format!("panic: {}", p.describe())); }
+    if let Got::Err { kind, text } = &o.load { return fail("load-error", format!("loading the document failed: {} ({})", kind, text)); }
+    let n = exp.len();
+    if o.count != n as i64 { return fail("wrong-count", format!("num_pages() = {} but the tree has {} leaves", o.count, n)); }
+    for (what, v) in [("get_page", &o.get), ("pages()", &o.iter)] {
+        if v.len() != n { return fail("wrong-count", format!("{} yielded {} items for {} leaves", what, v.len(), n)); }
+        for (i, g) in v.iter().enumerate() {
+            if let Got::Err { kind, text } = g { return fail("page-error", format!("{} index {} of {} is an error: {} ({})", what, i, n, kind, text)); }
+        }
+    }
+    for (what, v) in [("get_page", &o.get), ("pages()", &o.iter)] {
+        for (i, g) in v.iter().enumerate() {
+            if let Got::Val(p) = g {
+                if p.marker != Some(exp[i].marker) || p.nr != exp[i].nr {
+                    let pos = exp.iter().position(|e| Some(e.marker) == p.marker);
+                    return fail("wrong-page-order", format!("{} index {} returned object {} (marker {:?}, which is leaf #{:?}); expected object {} (marker {})", what, i, p.nr, p.marker, pos, exp[i].nr, exp[i].marker));
+                }
+            }
+        }
+    }
+    for (k, g) in o.oob.iter().enumerate() {
+        match g {
+            Got::Val(p) => return fail("out-of-bounds-not-error", format!("get_page({}) with {} pages returned object {}", n + k, n, p.nr)),
+            Got::Err { kind, text } if kind != "PageOutOfBounds" => return fail("out-of-bounds-wrong-error", format!("get_page({}) with {} pages: root cause {} ({})", n + k, n, kind, text)),
+            _ => {}
+        }
+    }
+    // attributes; the page identity is already established
+    for (i, g) in o.get.iter().enumerate() {
+        if let Got::Val(p) = g {
+            match &p.media { Got::Err { kind, text } => return fail("media-box-error", format!("media_box() of page {}: {} ({})", i, kind, text)),
+                Got::Val(m) if *m != exp[i].media => return fail("wrong-media-box", format!("media_box() of page {} = {:?}, expected {:?}", i, m, exp[i].media)), _ => {} }
+        }
+    }
+    for (i, g) in o.get.iter().enumerate() {
+        if let Got::Val(p) = g {
+            match &p.crop { Got::Err { kind, text } => return fail("crop-box-error", format!("crop_box() of page {}: {} ({})", i, kind, text)),
+                Got::Val(m) if *m != exp[i].crop => return fail("wrong-crop-box", format!("crop_box() of page {} = {:?}, expected {:?}", i, m, exp[i].crop)), _ => {} }
+        }
+    }
+    for (i, g) in o.get.iter().enumerate() {
+        if let Got::Val(p) = g {
+            match &p.res { Got::Err { kind, text } => return fail("resources-error", format!("resources() of page {}: {} ({})", i, kind, text)),
+                Got::Val(m) if *m != exp[i].res => return fail("wrong-resources", format!("resources() of page {} has /Properties {:?}, expected {:?}", i, m, exp[i].res)), _ => {} }
+        }
+    }
+    // pages() items carry the same attributes (same objects); compare too
+    for (i, g) in o.iter.iter().enumerate() {
+        if let Got::Val(p) = g {
+            if let Got::Val(m) = &p.media { if *m != exp[i].media { return fail("wrong-media-box", format!("pages() item {} media box {:?}, expected {:?}", i, m, exp[i].media)); } }
+            if let Got::Val(m) = &p.crop { if *m != exp[i].crop { return fail("wrong-crop-box", format!("pages() item {} crop box {:?}, expected {:?}", i, m, exp[i].crop)); } }
+            if let Got::Val(m) = &p.res { if *m != exp[i].res { return fail("wrong-resources", format!("pages() item {} resources {:?}, expected {:?}", i, m, exp[i].res)); } }
+        }
+    }
+    None
+}
+
+pub enum Outcome { Pass, Inconclusive(String), Fail { fail: Fail, cfg: String, bytes: Vec<u8> } }
+
+/// generator conformance: model (top-down on the abstract tree) vs bottom-up re-walk of the written objects
+fn prepare(t: &T, lay: &Layout) -> Result<(Built, Vec<ExpLeaf>), String> {
+    let f = flatten(t);
+    let wants = model(&f)?;
+    let b = build(&f, lay);
+    let leaves = walk::walk(&b.objs, b.catalog)?;
+    let exp = expectations(&wants, &b.nr_of);
+    if leaves.len() != exp.len() { return Err(format!("model has {} leaves, document walk {}", exp.len(), leaves.len())); }
+    for (l, e) in leaves.iter().zip(exp.iter()) {
+        let g = |a: Option<[f64; 4]>| a.map(|a| [a[0] as f32, a[1] as f32, a[2] as f32, a[3] as f32]);
+        if l.nr as u64 != e.nr || l.marker != Some(e.marker) || g(l.media) != Some(e.media) || g(l.crop) != Some(e.crop) || l.res.as_ref() != Some(&e.res) {
+            return Err(format!("model and document walk disagree on leaf object {}", l.nr));
+        }
+    }
+    Ok((b, exp))
+}
+
+pub fn check(t: &T, lay: &Layout) -> Outcome {
+    let (b, exp) = match prepare(t, lay) { Ok(x) => x, Err(e) => return Outcome::Inconclusive(format!("generator/model: {} [{}]", e, t.desc())) };
+    for cfg in CFG2 {
+        let o = observe_real(&b.bytes, cfg, exp.len());
+        if let Some(fail) = judge(&exp, &o) { return Outcome::Fail { fail, cfg: cfg.name(), bytes: b.bytes }; }
+    }
+    Outcome::Pass
+}
+
+// ------------------------------------------------------------------------------------------------ shrinking, labels
+
+#[derive(Clone, Copy)]
+enum Edit { Delete, Hoist, ClearM, ClearC, ClearR }
+
+fn edit(t: &T, target: usize, op: Edit) -> T {
+    fn go(t: &T, cur: &mut usize, target: usize, op: Edit) -> Vec<T> {
+        let my = *cur;
+        *cur += 1;
+        let mut n = T { leaf: t.leaf, kids: vec![], m: t.m, c: t.c, r: t.r };
+        if my == target {
+            match op {
+                Edit::Delete => { *cur += t.size() - 1; return vec![]; }
+                Edit::Hoist => { let mut out = Vec::new(); for k in &t.kids { out.extend(go(k, cur, target, op)); } return out; }
+                Edit::ClearM => n.m = false,
+                Edit::ClearC => n.c = false,
+                Edit::ClearR => n.r = false,
+            }
+        }
+        for k in &t.kids { n.kids.extend(go(k, cur, target, op)); }
+        vec![n]
+    }
+    let mut cur = 0;
+    go(t, &mut cur, target, op).pop().expect("root survives")
+}
+fn map_all(t: &T, f: &dyn Fn(&mut T, bool)) -> T {
+    fn go(t: &T, root: bool, f: &dyn Fn(&mut T, bool)) -> T {
+        let mut n = T { leaf: t.leaf, kids: t.kids.iter().map(|k| go(k, false, f)).collect(), m: t.m, c: t.c, r: t.r };
+        f(&mut n, root);
+        n
+    }
+    go(t, true, f)
+}
+fn in_domain(t: &T) -> bool { model(&flatten(t)).is_ok() }
+
+/// Structural minimisation: `same` re-runs generator + real library + oracle and says whether the candidate
+/// still fails with the same outcome class.
+pub fn shrink_case(t: &T, lay: &Layout, same: &dyn Fn(&T, &Layout) -> bool, budget: usize) -> (T, Layout) {
+    let mut cur = t.clone();
+    let mut lay = lay.clone();
+    let mut calls = 0usize;
+    loop {
+        let mut cands: Vec<(T, Layout)> = Vec::new();
+        for k in 0..4 {
+            let mut l = lay.clone();
+            match k { 0 => l.objstm = false, 1 => l.shuffle = None, 2 => l.res_indirect = false, _ => l.real_box = false }
+            if l != lay { cands.push((cur.clone(), l)); }
+        }
+        let f = flatten(&cur);
+        let mut sizes = vec![1usize; f.len()];
+        for id in (1..f.len()).rev() { let p = f[id].parent.unwrap(); sizes[p] += sizes[id]; }
+        let mut by_size: Vec<usize> = (1..f.len()).collect();
+        by_size.sort_by_key(|&i| std::cmp::Reverse(sizes[i]));
+        for &i in &by_size { cands.push((edit(&cur, i, Edit::Delete), lay.clone())); }
+        for i in 1..f.len() { if !f[i].leaf { cands.push((edit(&cur, i, Edit::Hoist), lay.clone())); } }
+        if f.iter().any(|n| n.c) { cands.push((map_all(&cur, &|n, _| n.c = false), lay.clone())); }
+        cands.push((map_all(&cur, &|n, root| n.m = root), lay.clone()));
+        cands.push((map_all(&cur, &|n, root| n.r = root), lay.clone()));
+        for i in 0..f.len() {
+            if f[i].m { cands.push((edit(&cur, i, Edit::ClearM), lay.clone())); }
+            if f[i].c { cands.push((edit(&cur, i, Edit::ClearC), lay.clone())); }
+            if f[i].r { cands.push((edit(&cur, i, Edit::ClearR), lay.clone())); }
+        }
+        let mut improved = false;
+        for (ct, cl) in cands {
+            if ct == cur && cl == lay { continue; }
+            if !in_domain(&ct) { continue; }
+            if calls >= budget { return (cur, lay); }
+            calls += 1;
+            if same(&ct, &cl) { cur = ct; lay = cl; improved = true; break; }
+        }
+        if !improved { return (cur, lay); }
+    }
+}
+
+/// feature labels of a (shrunk) case, small fixed vocabulary
+pub fn labels(t: &T, lay: &Layout) -> BTreeSet<String> {
+    let f = flatten(t);
+    let mut l: BTreeSet<&str> = BTreeSet::new();
+    if f.iter().skip(1).any(|n| !n.leaf) { l.insert("nested"); }
+    if f.iter().skip(1).any(|n| !n.leaf && n.kids.is_empty()) { l.insert("empty-node"); }
+    if !f.iter().any(|n| n.leaf) { l.insert("zero-pages"); }
+    if f.iter().any(|n| n.leaf && (n.m || n.c || n.r)) { l.insert("own-attr"); }
+    if f.iter().any(|n| n.c) { l.insert("crop"); }
+    if f.iter().any(|n| n.depth >= 6) { l.insert("deep"); }
+    for (i, n) in f.iter().enumerate() {
+        if !n.leaf { continue; }
+        let (mut m, mut c, mut r) = (0, 0, 0);
+        let mut cur = Some(i);
+        while let Some(k) = cur { m += f[k].m as u32; c += f[k].c as u32; r += f[k].r as u32; cur = f[k].parent; }
+        if m > 1 || c > 1 || r > 1 { l.insert("multi-provider"); }
+    }
+    if lay.shuffle.is_some() { l.insert("shuffled"); }
+    if lay.objstm { l.insert("objstm"); }
+    if lay.res_indirect && f.iter().any(|n| n.r) { l.insert("indirect-resources"); }
+    if lay.real_box { l.insert("real-box"); }
+    l.into_iter().map(|s| s.to_string()).collect()
+}
+fn join(l: &BTreeSet<String>) -> String { if l.is_empty() { "plain".to_string() } else { l.iter().cloned().collect::<Vec<_>>().join("+") } }
+
+struct Rec { class: String, labels: BTreeSet<String>, what: String, witness: Value }
+/// one failing document as found (not yet shrunk)
+struct Found { class: String, t: T, lay: Layout, fail: Fail, cfg: String, phase: u8, origin: String, tape: Option<Vec<u32>> }
+
+const LEGEND: &str = "P=Pages node, L=leaf Page, {M,C,R}=own MediaBox/CropBox/Resources; node ids = preorder position; MediaBox of node p = [0 0 1000+p 2000+p], CropBox = [10 20 3000+p 4000+p], Resources /Properties /Mk<p>, leaf marker /VerifLeaf 7000+id";
+const MAX_SHRINKS_PER_CLASS: usize = 48;
+
+struct Ctx<'a> { run: &'a Run, found: Mutex<Vec<Found>> }
+
+fn witness(t: &T, lay: &Layout, fail: &Fail, cfg: &str, bytes: &[u8], origin: &str) -> Value {
+    json!({ "tree": t.desc(), "layout": lay.json(), "config": cfg, "detail": fail.detail, "origin": origin,
+        "pdf_hex": if bytes.len() <= 6000 { hex(bytes) } else { format!("({} bytes, rebuild from tree+layout)", bytes.len()) }, "legend": LEGEND })
+}
+
+impl<'a> Ctx<'a> {
+    fn failure(&self, t: &T, lay: &Layout, fail: Fail, cfg: String, bytes: Vec<u8>, phase: u8, origin: String, tape: Option<&[u32]>) {
+        if fail.class.starts_with("panic|") {
+            // location-based signature, no shrinking needed for identity
+            self.run.violation(&format!("C07|{}", fail.class), &fail.detail, witness(t, lay, &fail, &cfg, &bytes, &origin));
+            return;
+        }
+        self.run.count(&format!("failing_documents:{}", fail.class));
+        self.found.lock().unwrap().push(Found { class: fail.class.clone(), t: t.clone(), lay: lay.clone(), fail, cfg, phase, origin, tape: tape.map(|t| t.to_vec()) });
+    }
+
+    /// Deterministic post-processing (independent of thread scheduling): per outcome class the failing documents
+    /// are grouped by their raw structural label set; the canonically smallest document of each group is shrunk on the real
+    /// code (at most MAX_SHRINKS_PER_CLASS groups, smallest first); of the label sets of the shrunk cases only the
+    /// subset-minimal ones become signatures (a superset is the same cause seen on a less minimal case).
+    fn emit(&self) {
+        let found = std::mem::take(&mut *self.found.lock().unwrap());
+        let key = |f: &Found| (f.phase, f.t.size(), f.t.desc().len(), f.t.desc(), join(&labels(&f.t, &f.lay)), f.origin.clone());
+        let mut reps: BTreeMap<(String, String), Found> = BTreeMap::new();
+        for f in found {
+            // grouping by the structural labels only: layout features that matter survive in every member anyway
+            let g = (f.class.clone(), join(&labels(&f.t, &Layout::plain())));
+            let better = match reps.get(&g) { Some(old) => key(&f) < key(old), None => true };
+            if better { reps.insert(g, f); }
+        }
+        let mut by_class: BTreeMap<String, Vec<Found>> = BTreeMap::new();
+        for ((class, _), f) in reps { by_class.entry(class).or_default().push(f); }
+        let mut jobs: Vec<Found> = Vec::new();
+        for (class, mut v) in by_class {
+            v.sort_by_key(|f| key(f));
+            if v.len() > MAX_SHRINKS_PER_CLASS { self.run.add(&format!("label_groups_not_shrunk:{}", class), (v.len() - MAX_SHRINKS_PER_CLASS) as u64); v.truncate(MAX_SHRINKS_PER_CLASS); }
+            jobs.extend(v);
+        }
+        let done: Mutex<Vec<(u64, Rec)>> = Mutex::new(Vec::new());
+        par_for(jobs.len() as u64, |j| {
+            let f = &jobs[j as usize];
+            let class = f.class.clone();
+            let same = |ct: &T, cl: &Layout| matches!(check(ct, cl), Outcome::Fail { fail: f2, .. } if f2.class == class);
+            let (st, sl) = shrink_case(&f.t, &f.lay, &same, 1500);
+            let rec = match check(&st, &sl) {
+                Outcome::Fail { fail, cfg, bytes } if fail.class == class => {
+                    let mut w = witness(&st, &sl, &fail, &cfg, &bytes, &f.origin);
+                    w["unshrunk_tree"] = json!(f.t.desc().chars().take(400).collect::<String>());
+                    if let Some(tp) = &f.tape { if tp.len() <= 400 { w["tape"] = json!(tp); } }
+                    Rec { class: class.clone(), labels: labels(&st, &sl), what: fail.detail, witness: w }
+                }
+                // not reproducible after shrinking (must not happen: everything is deterministic) -> report unshrunk
+                _ => Rec { class: class.clone(), labels: labels(&f.t, &f.lay), what: f.fail.detail.clone(), witness: witness(&f.t, &f.lay, &f.fail, &f.cfg, &[], &f.origin) },
+            };
+            self.run.count("shrunk_cases");
+            done.lock().unwrap().push((j, rec));
+        });
+        let mut done = done.into_inner().unwrap();
+        done.sort_by_key(|(j, _)| *j);
+        let mut by_class: BTreeMap<String, Vec<Rec>> = BTreeMap::new();
+        for (_, r) in done { by_class.entry(r.class.clone()).or_default().push(r); }
+        for (class, mut rs) in by_class {
+            rs.sort_by_key(|r| (r.labels.len(), join(&r.labels), r.witness["tree"].as_str().unwrap_or("").len(), r.witness["tree"].to_string()));
+            let mut minimal: Vec<BTreeSet<String>> = Vec::new();
+            for r in &rs { if !minimal.iter().any(|m| m.is_subset(&r.labels)) { minimal.push(r.labels.clone()); } }
+            for r in rs {
+                let m = minimal.iter().find(|m| m.is_subset(&r.labels)).unwrap();
+                let sig = format!("C07|{}|{}", class, join(m));
+                if *m != r.labels { self.run.count(&format!("subsumed:{}|{} -> {}", class, join(&r.labels), join(m))); }
+                self.run.violation(&sig, &r.what, r.witness);
+            }
+        }
+    }
+}
+
+// ------------------------------------------------------------------------------------------------ generators
+
+/// all node structures with exactly k nodes, k = 1..=n (index 0 unused); a structure is a leaf or a Pages node
+/// with an ordered forest of structures below it
+fn all_structures(n: usize) -> Vec<Vec<T>> {
+    let mut nodes: Vec<Vec<T>> = vec![vec![]; n + 1];
+    let mut forests: Vec<Vec<Vec<T>>> = vec![vec![]; n];
+    if n == 0 { return nodes; }
+    nodes[1] = vec![T::leaf(), T::pages(vec![])];
+    forests[0] = vec![vec![]];
+    for m in 1..n {
+        let mut fs: Vec<Vec<T>> = Vec::new();
+        for k in 1..=m {
+            for a in &nodes[k] {
+                for rest in &forests[m - k] {
+                    let mut v = Vec::with_capacity(rest.len() + 1);
+                    v.push(a.clone());
+                    v.extend(rest.iter().cloned());
+                    fs.push(v);
+                }
+            }
+        }
+        nodes[m + 1] = fs.iter().map(|f| T::pages(f.clone())).collect();
+        forests[m] = fs;
+    }
+    nodes
+}
+/// rooted shapes with exactly k nodes (root is a Pages node)
+fn root_shapes(n: usize) -> Vec<Vec<T>> {
+    let mut s = all_structures(n);
+    for v in s.iter_mut() { v.retain(|t| !t.leaf); }
+    s
+}
+const SCHROEDER: [usize; 9] = [0, 1, 2, 6, 22, 90, 394, 1806, 8558];
+
+/// placements for one (shape, node subset, scheme); None when the scheme adds nothing new
+fn place(shape: &T, subset: u32, scheme: u32) -> T {
+    fn go(t: &T, cur: &mut usize, subset: u32, scheme: u32) -> T {
+        let id = *cur;
+        *cur += 1;
+        let ins = subset >> id & 1 == 1;
+        let root = id == 0;
+        let (m, c, r) = match scheme { 0 => (ins, ins, ins), 1 => (ins, false, ins), _ => (root, ins, root) };
+        T { leaf: t.leaf, kids: t.kids.iter().map(|k| go(k, cur, subset, scheme)).collect(), m, c, r }
+    }
+    let mut cur = 0;
+    let mut t = go(shape, &mut cur, subset, scheme);
+    // MediaBox and Resources are required on every leaf's path: the root supplies them where the subset does not
+    if !in_domain(&t) { t.m = true; t.r = true; }
+    t
+}
+
+fn random_layout(r: &mut Rng) -> Layout {
+    Layout { shuffle: if r.chance(3, 4) { Some(r.next_u64() >> 16) } else { None }, objstm: r.chance(1, 3), res_indirect: r.chance(1, 3), real_box: r.chance(1, 4) }
+}
+
+/// seeded random tree: <= 60 nodes, depth <= 12, fan-out 0..=6, optional deep spine, random placements
+pub fn gen_random(s: &mut Src) -> (T, Layout) {
+    struct N { leaf: bool, kids: Vec<usize>, depth: usize }
+    let mut a: Vec<N> = vec![N { leaf: false, kids: vec![], depth: 0 }];
+    let mut target = match s.draw(4) { 0 => 1 + s.draw(12), 1 => 1 + s.draw(30), _ => 1 + s.draw(MAX_NODES as u32) } as usize;
+    // spine: chain of intermediate nodes so that leaves at depth 8..=12 really occur
+    if s.chance(2, 5) {
+        let spine = 7 + s.draw(5) as usize; // 7..=11 intermediate nodes below the root
+        target = target.max(spine + 2).min(MAX_NODES);
+        let mut cur = 0;
+        for _ in 0..spine { let id = a.len(); let d = a[cur].depth + 1; a.push(N { leaf: false, kids: vec![], depth: d }); a[cur].kids.push(id); cur = id; }
+        let id = a.len(); let d = a[cur].depth + 1;
+        a.push(N { leaf: true, kids: vec![], depth: d }); a[cur].kids.push(id);
+    }
+    while a.len() < target {
+        let cands: Vec<usize> = (0..a.len()).filter(|&i| !a[i].leaf && a[i].kids.len() < MAX_FANOUT && a[i].depth < MAX_DEPTH).collect();
+        if cands.is_empty() { break; }
+        // half of the time prefer the deepest candidates, so depth is not starved by breadth
+        let p = if s.chance(1, 2) { let dmax = cands.iter().map(|&i| a[i].depth).max().unwrap(); let deep: Vec<usize> = cands.iter().cloned().filter(|&i| a[i].depth + 2 >= dmax).collect(); deep[s.draw(deep.len() as u32) as usize] }
+                else { cands[s.draw(cands.len() as u32) as usize] };
+        let leaf = s.draw(10) < 6;
+        let pos = s.draw(a[p].kids.len() as u32 + 1) as usize;
+        let id = a.len(); let d = a[p].depth + 1;
+        a.push(N { leaf, kids: vec![], depth: d });
+        a[p].kids.insert(pos, id);
+    }
+    fn conv(a: &[N], i: usize) -> T { T { leaf: a[i].leaf, kids: a[i].kids.iter().map(|&k| conv(a, k)).collect(), m: false, c: false, r: false } }
+    let shape = conv(&a, 0);
+    // placements (preorder ids)
+    let f = flatten(&shape);
+    let no_crop = s.draw(5) == 0;
+    let dens = 2 + s.draw(5); // 1/dens per node
+    let mut m: Vec<bool> = Vec::new(); let mut c: Vec<bool> = Vec::new(); let mut r: Vec<bool> = Vec::new();
+    for _ in 0..f.len() { m.push(s.draw(dens) == dens - 1); c.push(!no_crop && s.draw(dens + 1) == dens); r.push(s.draw(dens) == dens - 1); }
+    for i in 0..f.len() {
+        if !f[i].leaf { continue; }
+        let mut path = vec![i]; while let Some(p) = f[*path.last().unwrap()].parent { path.push(p); }
+        path.reverse(); // root first: draw 0 = root = plainest
+        if !path.iter().any(|&k| m[k]) { let k = path[s.draw(path.len() as u32) as usize]; m[k] = true; }
+        if !path.iter().any(|&k| r[k]) { let k = path[s.draw(path.len() as u32) as usize]; r[k] = true; }
+    }
+    fn apply(t: &T, cur: &mut usize, m: &[bool], c: &[bool], r: &[bool]) -> T {
+        let id = *cur; *cur += 1;
+        T { leaf: t.leaf, kids: t.kids.iter().map(|k| apply(k, cur, m, c, r)).collect(), m: m[id], c: c[id], r: r[id] }
+    }
+    let mut cur = 0;
+    let t = apply(&shape, &mut cur, &m, &c, &r);
+    let lay = Layout {
+        shuffle: if s.chance(3, 4) { Some(s.u32full() as u64) } else { None },
+        objstm: s.chance(1, 3), res_indirect: s.chance(1, 3), real_box: s.chance(1, 4),
+    };
+    (t, lay)
+}
+
+// ------------------------------------------------------------------------------------------------ self-test
+
+fn self_test() -> Result<(), String> {
+    use walk::Bug;
+    let l = T::leaf;
+    // A: ids 0 P{MR}, 1 L, 2 P, 3 L, 4 P(), 5 L{M}, 6 L
+    let a = T::pages(vec![l(), T::pages(vec![l(), T::pages(vec![]), l().with("M")]), l()]).with("MR");
+    // B: ids 0 P{MCR}, 1 P{MC}, 2 P, 3 L, 4 L{R}
+    let b = T::pages(vec![T::pages(vec![T::pages(vec![l()]), l().with("R")]).with("MC")]).with("MCR");
+    let table: [(&T, Vec<Want>); 2] = [
+        (&a, vec![Want { id: 1, media: 0, crop: None, res: 0 }, Want { id: 3, media: 0, crop: None, res: 0 }, Want { id: 5, media: 5, crop: None, res: 0 }, Want { id: 6, media: 0, crop: None, res: 0 }]),
+        (&b, vec![Want { id: 3, media: 1, crop: Some(1), res: 0 }, Want { id: 4, media: 1, crop: Some(1), res: 4 }]),
+    ];
+    let lay2 = Layout { shuffle: Some(99), objstm: true, res_indirect: true, real_box: true };
+    for (t, want) in table.iter() {
+        if &model(&flatten(t))? != want { return Err(format!("model differs from the hand table for {}", t.desc())); }
+        for lay in [Layout::plain(), lay2.clone()] {
+            let (bt, exp) = prepare(t, &lay)?;
+            if let Some(f) = judge(&exp, &observe_stub(&bt.objs, bt.catalog, Bug::None, exp.len())) { return Err(format!("oracle fires on the correct stub: {} {}", f.class, f.detail)); }
+        }
+    }
+    let expect = [(Bug::PosPlusOne, &a, "page-error"), (Bug::NoRebase, &a, "page-error"), (Bug::Outermost, &b, "wrong-media-box"),
+        (Bug::CountKids, &a, "wrong-count"), (Bug::BoundsOffByOne, &a, "page-error"), (Bug::CropIgnoresInheritance, &b, "wrong-crop-box")];
+    for (bug, t, class) in expect {
+        let (bt, exp) = prepare(t, &Layout::plain())?;
+        match judge(&exp, &observe_stub(&bt.objs, bt.catalog, bug, exp.len())) {
+            Some(f) if f.class == class => {}
+            other => return Err(format!("doctored stub {:?}: expected {}, oracle said {:?}", bug, class, other.map(|f| f.class))),
+        }
+    }
+    // doctored observations for the remaining classes
+    let (bt, exp) = prepare(&a, &Layout::plain())?;
+    let good = observe_stub(&bt.objs, bt.catalog, Bug::None, exp.len());
+    let mut o = good.clone(); o.get.swap(1, 2);
+    let mut p = good.clone(); p.oob[0] = good.get[3].clone();
+    let mut q = good.clone(); q.oob[2] = Got::Err { kind: "Other".into(), text: String::new() };
+    let mut r = good.clone(); if let Got::Val(pg) = &mut r.get[2] { pg.res = Got::Val(vec!["Mk5".into()]); }
+    let mut s = good.clone(); s.iter.pop();
+    for (o, class) in [(o, "wrong-page-order"), (p, "out-of-bounds-not-error"), (q, "out-of-bounds-wrong-error"), (r, "wrong-resources"), (s, "wrong-count")] {
+        match judge(&exp, &o) { Some(f) if f.class == class => {}, other => return Err(format!("doctored observation: expected {}, got {:?}", class, other.map(|f| f.class))) }
+    }
+    // shrinker + labels on a synthetic predicate: "fails while some Pages node is nested and the file has an object stream"
+    let big = T::pages(vec![l(), T::pages(vec![l(), T::pages(vec![l(), l()]).with("C"), l().with("M")]), l()]).with("MR");
+    let (st, sl) = shrink_case(&big, &lay2, &|t, lay| lay.objstm && flatten(t).iter().skip(1).any(|n| !n.leaf), 1000);
+    if st.desc() != "P{MR}(P())" || join(&labels(&st, &sl)) != "empty-node+nested+objstm+zero-pages" { return Err(format!("shrinker self-test gave {} {}", st.desc(), join(&labels(&st, &sl)))); }
+    Ok(())
+}
+
+// ------------------------------------------------------------------------------------------------ driver
+
+#[derive(Default)]
+struct Stats(BTreeMap<String, u64>);
+impl Stats {
+    fn add(&mut self, k: &str, n: u64) { *self.0.entry(k.to_string()).or_insert(0) += n; }
+    fn flush(self, run: &Run) { for (k, v) in self.0 { run.add(&k, v); } }
+}
+
+/// evidence counters describing what one case exercised
+fn case_stats(t: &T, lay: &Layout, phase: &str, st: &mut Stats) -> bool {
+    let f = flatten(t);
+    let leaves: Vec<usize> = (0..f.len()).filter(|&i| f[i].leaf).collect();
+    st.add(&format!("{}:documents", phase), 1);
+    st.add("entry:num_pages", 2);
+    st.add("entry:get_page in range", 2 * leaves.len() as u64);
+    st.add("entry:pages() items", 2 * leaves.len() as u64);
+    st.add("entry:get_page out of range", 6);
+    st.add("entry:media_box/crop_box/resources calls (each)", 4 * leaves.len() as u64);
+    for &i in &leaves {
+        let getters: [(&str, fn(&Flat) -> bool); 3] = [("media", |n| n.m), ("crop", |n| n.c), ("resources", |n| n.r)];
+        for (attr, has) in getters {
+            let mut d = 0; let mut cur = Some(i); let mut found = None;
+            while let Some(k) = cur { if has(&f[k]) { found = Some(d); break; } d += 1; cur = f[k].parent; }
+            match found {
+                Some(d) => st.add(&format!("inherit:{}:distance {}", attr, if d >= 6 { "6+".to_string() } else { d.to_string() }), 1),
+                None => st.add(&format!("inherit:{}:none on path (crop falls back to media box)", attr), 1),
+            }
+        }
+    }
+    if phase == "random" {
+        let maxleaf = leaves.iter().map(|&i| f[i].depth).max().unwrap_or(0);
+        st.add(&format!("random:max leaf depth {:02}", maxleaf), 1);
+        st.add(&format!("random:max node depth {:02}", f.iter().map(|n| n.depth).max().unwrap_or(0)), 1);
+        st.add(&format!("random:nodes {}", match f.len() { 0..=10 => "01-10", 11..=20 => "11-20", 21..=40 => "21-40", _ => "41-60" }), 1);
+        st.add(&format!("random:max fan-out {}", f.iter().map(|n| n.kids.len()).max().unwrap_or(0)), 1);
+    }
+    for l in labels(t, lay) { st.add(&format!("feature:{}", l), 1); }
+    // non-trivial: index -> leaf depends on counts of nested nodes
+    leaves.len() >= 1 && f.iter().skip(1).any(|n| !n.leaf)
+}
+
+fn case_hash(t: &T) -> u64 { fnv(t.desc().as_bytes()) }
+
+pub fn run(run: &Run) {
+    let nmax = if run.quick() { 6 } else { 8 };
+    run.rule(&format!("page trees: (a) EVERY rooted ordered shape with <= {nmax} nodes (root = Pages node; every other node a leaf Page or a Pages node with >= 0 kids) x every node subset S with |S| <= 3 x 3 placement schemes (MediaBox+CropBox+Resources on S; MediaBox+Resources on S, no CropBox anywhere; CropBox on S, MediaBox+Resources on the root only; the root additionally supplies MediaBox/Resources when S leaves a leaf uncovered), layout sampled per document; (b) seeded random trees <= 60 nodes, depth <= 12 edges, fan-out 0..6, 2/5 with a spine so that leaf depths 8..12 occur, independent random placements of the three attributes with unique markers. Layout = object numbers and file order shuffled / object stream + xref stream / Resources indirect / box numbers as reals. Each document is checked under uncached+strict and cached+strict: num_pages, get_page(i) and pages() for every leaf i (identity by /VerifLeaf marker and object number), get_page(count+0..2) root cause PageOutOfBounds, media_box/crop_box/resources markers against the nearest-provider model. distinct_nontrivial = distinct abstract trees (shape+placements) with at least one leaf below a nested Pages node"));
+    run.assume("mkpdf serialises the generated objects faithfully (the object-level re-walk in refimpl/c07_walk.rs checks Type/Parent/Count/acyclicity and re-derives order and attributes bottom-up; the byte level is shared with the other checks)");
+    run.assume("a Pages node with an empty /Kids array and /Count 0 (labels empty-node, zero-pages) is a well-formed tree node, as the property's quantifier says");
+    if let Err(e) = self_test() { run.inconclusive(format!("self-test failed: {}", e)); return; }
+    run.count("self_test_passed");
+    let ctx = Ctx { run, found: Mutex::new(Vec::new()) };
+
+    // (a) exhaustive
+    let shapes = root_shapes(nmax);
+    let mut flat_shapes: Vec<&T> = Vec::new();
+    let mut count_ok = true;
+    for k in 1..=nmax {
+        run.add(&format!("exhaustive:shapes with {} nodes", k), shapes[k].len() as u64);
+        if shapes[k].len() != SCHROEDER[k] { count_ok = false; run.inconclusive(format!("shape enumeration: {} shapes with {} nodes, expected {}", shapes[k].len(), k, SCHROEDER[k])); }
+        let distinct: HashSet<&T> = shapes[k].iter().collect();
+        if distinct.len() != shapes[k].len() || shapes[k].iter().any(|t| t.size() != k) { count_ok = false; run.inconclusive(format!("shape enumeration: duplicates or wrong size at {} nodes", k)); }
+        flat_shapes.extend(shapes[k].iter());
+    }
+    let incomplete = Mutex::new(0u64);
+    par_for(flat_shapes.len() as u64, |si| {
+        let shape = flat_shapes[si as usize];
+        let n = shape.size();
+        let mut st = Stats::default();
+        let mut seen: HashSet<T> = HashSet::new();
+        let mut lr = Rng::derive(run.seed, 7, si);
+        for subset in 0u32..(1 << n) {
+            if subset.count_ones() > 3 { continue; }
+            for scheme in 0..3 {
+                let t = place(shape, subset, scheme);
+                if !seen.insert(t.clone()) { continue; }
+                let lay = random_layout(&mut lr);
+                run.eval();
+                if case_stats(&t, &lay, "exhaustive", &mut st) { run.nontrivial(case_hash(&t)); }
+                match check(&t, &lay) {
+                    Outcome::Pass => {}
+                    Outcome::Inconclusive(w) => { run.inconclusive(w); *incomplete.lock().unwrap() += 1; }
+                    Outcome::Fail { fail, cfg, bytes } => ctx.failure(&t, &lay, fail, cfg, bytes, 0, format!("exhaustive shape #{} subset {:#b} scheme {}", si, subset, scheme), None),
+                }
+                if si % 97 == 5 && subset == 0b101 && scheme == 0 { run.sample(json!({"phase": "exhaustive", "tree": t.desc(), "layout": lay.json()})); }
+            }
+        }
+        st.flush(run);
+    });
+    run.exhaustive(&format!("all page-tree shapes with <= {} nodes x all node subsets of size <= 3 x 3 placement schemes", nmax), count_ok && *incomplete.lock().unwrap() == 0);
+
+    // (b) random
+    let n = run.n(2000, 200_000);
+    par_for(n, |i| {
+        let mut s = Src::fresh(Rng::derive(run.seed, 7, 1_000_000 + i));
+        let (t, lay) = gen_random(&mut s);
+        let mut st = Stats::default();
+        run.eval();
+        if case_stats(&t, &lay, "random", &mut st) { run.nontrivial(case_hash(&t)); }
+        match check(&t, &lay) {
+            Outcome::Pass => {}
+            Outcome::Inconclusive(w) => run.inconclusive(w),
+            Outcome::Fail { fail, cfg, bytes } => ctx.failure(&t, &lay, fail, cfg, bytes, 1, format!("random #{:07}", i), Some(&s.tape)),
+        }
+        if i < 4 { run.sample(json!({"phase": "random", "tree": t.desc(), "layout": lay.json(), "nodes": t.size()})); }
+        st.flush(run);
+    });
+    ctx.emit();
+}
